@@ -69,6 +69,28 @@ var leafTypes = map[string]reflect.Type{
 	"url": reflect.TypeOf(url.URL{}), "uid": reflect.TypeOf(types.UID{}), "media": reflect.TypeOf(types.Media{}),
 	"iface": reflect.TypeOf((*interface{})(nil)).Elem(),
 	"node":  reflect.TypeOf(types.Node{}), "edge": reflect.TypeOf(types.Edge{}),
+	// named types over basic kinds
+	"nuint16": reflect.TypeOf(NamedU16(0)), "nint64": reflect.TypeOf(NamedI64(0)), "nfloat32": reflect.TypeOf(NamedF32(0)), "nstring": reflect.TypeOf(NamedStr("")),
+}
+
+type NamedU16 uint16
+type NamedI64 int64
+type NamedF32 float32
+type NamedStr string
+
+// baseKind: the basic kind behind a named leaf kind.
+func baseKind(kind string) string {
+	switch kind {
+	case "nuint16":
+		return "uint16"
+	case "nint64":
+		return "int64"
+	case "nfloat32":
+		return "float32"
+	case "nstring":
+		return "string"
+	}
+	return kind
 }
 
 func termType(t *typeTerm) reflect.Type {
@@ -140,6 +162,7 @@ func (m *valueMaker) intIn(bits int, signed bool) int64 {
 func (m *valueMaker) leaf(kind string, vc string) reflect.Value {
 	rt := leafTypes[kind]
 	v := reflect.New(rt).Elem()
+	kind = baseKind(kind)
 	switch kind {
 	case "bool":
 		m.next()
@@ -389,7 +412,7 @@ func emptyForOmission(v reflect.Value) bool {
 }
 
 func isNumKind(k string) bool {
-	switch k {
+	switch baseKind(k) {
 	case "int8", "int16", "int32", "int64", "int", "uint8", "uint16", "uint32", "uint64", "uint", "float32", "float64":
 		return true
 	}
@@ -397,6 +420,7 @@ func isNumKind(k string) bool {
 }
 
 func numericArrayToken(kind string, v reflect.Value) string {
+	kind = baseKind(kind)
 	at := map[string]string{"int8": "ai8", "int16": "ai16", "int32": "ai32", "int64": "ai64", "int": "ai64", "uint8": "au8", "uint16": "au16", "uint32": "au32",
 		"uint64": "au64", "uint": "au64", "float32": "af32", "float64": "af64", "bool": "abit"}[kind]
 	var data []byte
@@ -432,7 +456,7 @@ func numericArrayToken(kind string, v reflect.Value) string {
 }
 
 func leafToken(kind string, v reflect.Value) string {
-	switch kind {
+	switch baseKind(kind) {
 	case "bool":
 		return fmt.Sprintf("B:%v", v.Bool())
 	case "int8", "int16", "int32", "int64", "int":
